@@ -10,8 +10,16 @@ by a small interpreter over EVERY combination of values for all small capacities
 does modular arithmetic, so a disagreement with the specification shows up at small capacities (a wrapped usize
 subtraction is off by 2^64 mod capacity, which is non-zero for every capacity that is not a power of two). This is an
 evaluation of two expressions of the source under all inputs of a finite domain, not a run of the program.
+
+The expressions are taken for what they compute, not for how they are written: calls of small pure helpers of the crate
+(`next_slot(i)`, `is_occupied(i)`, `in_cyclic_range(a, x, b)`) are evaluated by evaluating the helper's body with the
+argument values; (b) is decided by evaluating the path condition of every exit for an EMPTY and for several occupied
+values of the slot under the cursor (so `h == 0`, `!(h != 0)`, `while is_occupied(j)`, `while k.0 != 0` are the same
+test); the loop may advance the cursor at its top (`loop { j = next(j); .. }`, cursor starting at the hole) or at its
+bottom (`j = next(hole); while .. { ..; j = next(j) }`) - LoopScope puts the statements of one iteration in execution
+order and checks that a local read in a condition still holds the value of its initialiser there.
 """
-from cao.facts import hir_walk, hir_strip, hir_callee, hir_local_id, hir_children, block_exprs, short
+from cao.facts import hir_walk, hir_strip, hir_callee, hir_local_id, hir_children, block_exprs, short, pat_bindings
 from cao import hirutil as hu
 
 M64 = 1 << 64
@@ -25,6 +33,29 @@ class Overflow(Exception):
     pass
 
 
+class NotCursor(Unknown):
+    """a slot other than the one under the cursor is read"""
+
+
+class _SlotMark:
+    """the marker stored in the slot under the cursor when only its identity matters (argument of home_slot): any
+    arithmetic or comparison on it is refused"""
+
+    def __eq__(self, o):
+        raise TypeError("slot marker")
+
+    def __ne__(self, o):
+        raise TypeError("slot marker")
+
+    __hash__ = None
+
+    def __bool__(self):
+        raise TypeError("slot marker")
+
+
+SLOT_MARK = _SlotMark()
+
+
 class Ev:
     def __init__(self, f, env, cap, home):
         self.f = f
@@ -33,6 +64,13 @@ class Ev:
         self.home = home
         self.inits = hu.let_inits(f)
         self.depth = 0
+        # optional context (all off by default: plain integer expressions of one function)
+        self.crate = None       # Facts: calls of small pure crate functions are evaluated through their bodies
+        self.slot_tys = ()      # type strings of a slot marker: reads of the marker array are looked up in `slots`
+        self.slots = None       # slot index -> value of the marker stored there (int, or SLOT_MARK)
+        self.scope = None       # LoopScope + position: locals are resolved to the initialiser that is live there
+        self.pos = None
+        self.inline_depth = 0
 
     def ev(self, e):
         self.depth += 1
@@ -40,8 +78,53 @@ class Ev:
             raise Unknown("too deep")
         try:
             return self._ev(e)
+        except TypeError:
+            raise Unknown("arithmetic on a value that is not a number (the marker stored in a slot)")
         finally:
             self.depth -= 1
+
+    def _is_slot_ty(self, ty):
+        t = (ty or "").replace("&mut ", "").replace("&", "").strip()
+        return t in self.slot_tys
+
+    def _slot_index(self, e):
+        """e reads the marker array (`hashes[i]`, `*handles.add(i)`): the index expression, else None"""
+        k = e.get("k")
+        if k == "index" and self._is_slot_ty(e.get("ty")):
+            return e["idx"]
+        if k == "un" and e["op"] == "Deref" and self._is_slot_ty(e.get("ty")):
+            p = hu.strip_casts(e["e"])
+            if p is not None and p.get("k") == "mcall" and p["name"] in ("add", "offset", "wrapping_add") and len(p["args"]) == 1:
+                rt = (hir_strip(p["recv"]).get("ty") or "").strip()
+                if any(rt in ("*mut " + t, "*const " + t) for t in self.slot_tys):
+                    return p["args"][0]
+        return None
+
+    def _inline(self, e, g):
+        """value of a call of the crate function g: its body evaluated with the values of the arguments. Only bodies that
+        are pure expressions (lets + a value; no assignment, loop or early return) are understood."""
+        if self.inline_depth >= 6:
+            raise Unknown("helper calls nested too deep")
+        args = ([e["recv"]] if e["k"] == "mcall" else []) + list(e["args"])
+        pats = g.hir["params"]
+        if len(pats) != len(args) or not all(p_.get("k") == "bind" for p_ in pats):
+            raise Unknown("call %s" % g.name)
+        for y in hir_walk(g.hir["body"]):
+            if y.get("k") in ("ret", "assign", "assign_op", "loop", "break", "continue", "closure"):
+                raise Unknown("helper %s is not a pure expression (%s)" % (g.name, y["k"]))
+        env = {}
+        for p_, a in zip(pats, args):
+            if p_.get("name") == "self":
+                continue
+            try:
+                env[p_["id"]] = self.ev(a)
+            except Unknown as u:
+                env[p_["id"]] = u        # raised when (if) the helper uses the parameter
+        c = Ev(g, env, self.cap, self.home)
+        c.crate, c.slot_tys, c.slots = self.crate, self.slot_tys, self.slots
+        c.inline_depth = self.inline_depth + 1
+        c.depth = self.depth
+        return c.ev(g.hir["body"])
 
     def _ev(self, e):
         e = hu.strip_casts(e)
@@ -59,7 +142,12 @@ class Ev:
             r = e["path"]["res"]
             if r["k"] == "local":
                 if r["id"] in self.env:
-                    return self.env[r["id"]]
+                    v = self.env[r["id"]]
+                    if isinstance(v, Unknown):
+                        raise v
+                    return v
+                if self.scope is not None:
+                    return self.ev(self.scope.resolve(r["id"], self.pos, r.get("name")))
                 ins = self.inits.get(r["id"], [])
                 if len(ins) == 1:
                     return self.ev(ins[0])
@@ -68,14 +156,39 @@ class Ev:
         if k == "field":
             if e["name"] == "capacity":
                 return self.cap
+            if e["name"] == "0" and self._is_slot_ty(hir_strip(e["e"]).get("ty")):
+                return self.ev(e["e"])       # Handle(x).0
             raise Unknown("field %s" % e["name"])
+        if self.slots is not None and k in ("index", "un"):
+            ix = self._slot_index(e)
+            if ix is not None:
+                i = self.ev(ix)
+                if i not in self.slots:
+                    raise NotCursor("slot %s is read, the cursor is at %s" % (i, sorted(self.slots)))
+                return self.slots[i]
         if k in ("mcall", "call"):
             names = hir_callee(e)
             nm = e.get("name") or ""
             if any(n.endswith("::home_slot") for n in names):
+                if self.slots is not None and e["args"]:
+                    # the home slot must be the one of the entry under the cursor
+                    try:
+                        a = self.ev(e["args"][-1])
+                    except NotCursor as u:
+                        raise Unknown("the home slot is computed for an entry that is not under the cursor (%s)" % u)
+                    except Stale:
+                        raise
+                    except Unknown:
+                        a = SLOT_MARK
+                    if a is not SLOT_MARK and any(v is SLOT_MARK for v in self.slots.values()):
+                        raise Unknown("the home slot is not computed from the marker stored under the cursor")
                 return self.home
             if any(n.endswith("::capacity") for n in names):
                 return self.cap
+            if k == "call" and self.slot_tys and len(e["args"]) == 1 and self._is_slot_ty(e.get("ty")):
+                r_ = (hir_strip(e["f"]).get("path") or {}).get("res") or {}
+                if r_.get("ctor_of"):
+                    return self.ev(e["args"][0])     # Handle(x)
             if k == "mcall" and nm in ("wrapping_sub", "wrapping_add", "wrapping_mul"):
                 a = self.ev(e["recv"])
                 b = self.ev(e["args"][0])
@@ -84,6 +197,11 @@ class Ev:
                 a = self.ev(e["recv"])
                 b = self.ev(e["args"][0])
                 return min(a, b) if nm == "min" else max(a, b)
+            if self.crate is not None:
+                for n in names:
+                    g = self.crate.fn(n, required=False) if n.count("::") >= 1 else None
+                    if g is not None and g.hir is not None and not g.is_closure:
+                        return self._inline(e, g)
             raise Unknown("call %s" % (names or nm))
         if k == "bin":
             op = e["op"]
@@ -138,94 +256,503 @@ class Ev:
             if bl.get("expr") is None:
                 raise Unknown("block without value")
             return self.ev(bl["expr"])
+        if k == "tup":
+            return tuple(self.ev(x) for x in e["elems"])
+        if k == "match":
+            v = self.ev(e["scrut"])
+            for a in e["arms"]:
+                binds = {}
+                if not self._pat(a["pat"], v, binds):
+                    continue
+                saved = {b: self.env[b] for b in binds if b in self.env}
+                self.env.update(binds)
+                try:
+                    if a.get("guard") is not None and not bool(self.ev(a["guard"])):
+                        continue
+                    return self.ev(a["body"])
+                finally:
+                    for b in binds:
+                        self.env.pop(b, None)
+                    self.env.update(saved)
+            raise Unknown("no match arm applies")
         raise Unknown(str(k))
 
+    def _pat(self, p, v, binds):
+        """does value v match pattern p (literals, tuples, bindings, wildcards, or-patterns)?"""
+        k = p.get("k")
+        if k == "wild":
+            return True
+        if k == "bind":
+            if "sub" in p and not self._pat(p["sub"], v, binds):
+                return False
+            binds[p["id"]] = v
+            return True
+        if k == "expr" and "lit" in p and p["lit"].get("k") in ("bool", "int"):
+            lv = p["lit"]["v"]
+            if p["lit"]["k"] == "bool":
+                return isinstance(v, bool) and v == bool(lv)
+            if isinstance(v, bool) or not isinstance(v, int):
+                raise Unknown("literal pattern on a value that is not a number")
+            return v == (-lv if p.get("neg") else lv)
+        if k == "tuple":
+            if not isinstance(v, tuple) or len(v) != len(p["pats"]):
+                raise Unknown("tuple pattern")
+            return all(self._pat(x, y, binds) for x, y in zip(p["pats"], v))
+        if k == "or":
+            return any(self._pat(x, v, binds) for x in p["pats"])
+        raise Unknown("pattern %s" % k)
 
-def _top_exprs(loop):
-    return list(block_exprs(loop["body"]))
+
+class Stale(Unknown):
+    """a local is read after something its initialiser depends on was assigned again"""
 
 
-def _loop_exits(loop):
-    from cao.scoping import _exits
+# ---------------------------------------------------------------------------------------------------
+# one iteration of the loop in execution order
+# ---------------------------------------------------------------------------------------------------
+
+class Event:
+    __slots__ = ("kind", "node", "ctx", "lid", "init")
+
+    def __init__(self, kind, node, ctx, lid=None, init=None):
+        self.kind = kind      # 'def' (a local gets a value), 'if' (a condition is evaluated), 'exit' (break/return/continue), 'loop'
+        self.node = node
+        self.ctx = ctx        # enclosing conditional constructs: an event is executed whenever its ctx is entered
+        self.lid = lid
+        self.init = init      # the expression assigned (None: compound assignment / pattern binding - opaque)
+
+
+def _diverges(e):
+    """does the expression always leave the iteration (its last action is break / return / continue)?"""
+    e = hir_strip(e)
+    if e is None:
+        return False
+    k = e.get("k")
+    if k in ("break", "ret", "continue"):
+        return True
+    if k == "block":
+        bl = e["block"]
+        for st in bl["stmts"]:
+            if st["k"] in ("semi", "expr") and _diverges(st["e"]):
+                return True
+        return bl.get("expr") is not None and _diverges(bl["expr"])
+    if k == "if":
+        return e.get("else") is not None and _diverges(e["then"]) and _diverges(e["else"])
+    return False
+
+
+def _emit(e, out, ctx):
+    """events of an expression in execution order. A branch whose sibling always leaves the iteration is executed by every
+    iteration that goes on (`if h == 0 { break }` ; rest    ==    `if h != 0 { rest } else { break }`    ==    `while h != 0 { rest }`),
+    so it keeps the context of the `if`."""
+    if e is None:
+        return
+    k = e.get("k")
+    if k == "block":
+        _emit_block(e["block"], out, ctx)
+    elif k == "if":
+        out.append(Event("if", e, ctx))
+        _emit(e["cond"], out, ctx)
+        th, el = e["then"], e.get("else")
+        dt, de = _diverges(th), (el is not None and _diverges(el))
+        if de and not dt:
+            _emit(el, out, ctx + (("else", id(e)),))
+            _emit(th, out, ctx)
+        elif dt and not de:
+            _emit(th, out, ctx + (("then", id(e)),))
+            _emit(el, out, ctx)
+        else:
+            _emit(th, out, ctx + (("then", id(e)),))
+            _emit(el, out, ctx + (("else", id(e)),))
+    elif k == "loop":
+        out.append(Event("loop", e, ctx))
+        _emit_block(e["body"], out, ctx + (("loop", id(e)),))
+    elif k == "match":
+        _emit(e["scrut"], out, ctx)
+        for n, a in enumerate(e["arms"]):
+            actx = ctx + (("arm%d" % n, id(e)),)
+            for bid, _nm in pat_bindings(a.get("pat")):
+                out.append(Event("def", a, actx, bid, None))
+            _emit(a.get("guard"), out, actx)
+            _emit(a["body"], out, actx)
+    elif k == "closure":
+        return
+    elif k in ("assign", "assign_op"):
+        _emit(e["r"], out, ctx)
+        lid = hir_local_id(e["l"])
+        if lid is not None:
+            out.append(Event("def", e, ctx, lid, e["r"] if k == "assign" else None))
+        else:
+            _emit(e["l"], out, ctx)
+    elif k == "let":
+        _emit(e.get("init"), out, ctx)
+        for bid, _nm in pat_bindings(e.get("pat")):
+            out.append(Event("def", e, ctx, bid, None))
+    elif k in ("break", "ret", "continue"):
+        _emit(e.get("e"), out, ctx)
+        out.append(Event("exit", e, ctx))
+    else:
+        for c in hir_children(e):
+            _emit(c, out, ctx)
+
+
+def _emit_block(bl, out, ctx):
+    for st in bl["stmts"]:
+        if st["k"] == "let":
+            _emit(st.get("init"), out, ctx)
+            if st.get("els"):
+                _emit_block(st["els"], out, ctx + (("els", id(st)),))
+            pat = st.get("pat") or {}
+            if pat.get("k") == "bind" and "sub" not in pat and st.get("init") is not None:
+                out.append(Event("def", st, ctx, pat["id"], st["init"]))
+            else:
+                for bid, _nm in pat_bindings(pat):
+                    out.append(Event("def", st, ctx, bid, None))
+        elif st["k"] in ("expr", "semi"):
+            _emit(st["e"], out, ctx)
+    _emit(bl.get("expr"), out, ctx)
+
+
+def _nf(e):
+    """structure of an expression without line numbers: two initialisers with the same form compute the same thing"""
+    e = hir_strip(e)
+    if e is None:
+        return None
+    k = e.get("k")
+    if k == "path":
+        r = e["path"]["res"]
+        return ("local", r["id"]) if r["k"] == "local" else ("def", r.get("path"))
+    if k == "lit":
+        return ("lit", e["lit"].get("k"), e["lit"].get("v"))
+    head = (k, e.get("op"), e.get("name"), tuple(hir_callee(e)) if k in ("call", "mcall") else None, e.get("ty") if k == "cast" else None)
+    return head + tuple(_nf(c) for c in hir_children(e))
+
+
+def _locals_of(e):
+    return set(hir_local_id(y) for y in hir_walk(e) if y.get("k") == "path" and hir_local_id(y) is not None)
+
+
+class LoopScope:
+    """The statements before the loop and of one iteration as a sequence of events. resolve(local, position) gives the
+    expression whose value the local holds at that position: its last assignment on the way there - from the loop entry
+    and from the previous iteration, which must agree - provided that assignment is executed unconditionally and nothing
+    the expression reads was assigned since (otherwise the local is stale: it describes an earlier cursor position)."""
+    ENTRY = "entry"
+
+    def __init__(self, f, lp):
+        self.f = f
+        evs = []
+        _emit(f.hir["body"], evs, ())
+        li = next((n for n, ev in enumerate(evs) if ev.kind == "loop" and ev.node is lp), None)
+        if li is None:
+            raise Unknown("the loop is not in the function body proper")
+        self.lp_ctx = evs[li].ctx
+        self.inner = self.lp_ctx + (("loop", id(lp)),)
+        j = li + 1
+        while j < len(evs) and evs[j].ctx[:len(self.inner)] == self.inner:
+            j += 1
+        self.pre = evs[:li]
+        self.it = evs[li + 1:j]
+        self.cache = {}
+
+    def position(self, kind, node):
+        for n, ev in enumerate(self.it):
+            if ev.kind == kind and ev.node is node:
+                return n
+        return None
+
+    def always(self, ev, in_loop):
+        """is the event executed on every way to / round of the loop?"""
+        if in_loop:
+            return ev.ctx == self.inner
+        return ev.ctx == self.lp_ctx[:len(ev.ctx)]
+
+    def defs(self, lid):
+        return [(n, ev) for n, ev in enumerate(self.it) if ev.kind == "def" and ev.lid == lid]
+
+    def has_continue(self):
+        return any(ev.kind == "exit" and ev.node.get("k") == "continue" for ev in self.it)
+
+    def resolve(self, lid, pos, name=None):
+        key = (lid, pos)
+        if key in self.cache:
+            r = self.cache[key]
+            if isinstance(r, Unknown):
+                raise r
+            return r
+        try:
+            r = self._resolve(lid, pos, name or lid)
+        except Unknown as u:
+            self.cache[key] = u
+            raise
+        self.cache[key] = r
+        return r
+
+    def _resolve(self, lid, pos, name):
+        if pos == self.ENTRY or pos is None:
+            head, tail = [], []
+        else:
+            if self.has_continue():
+                raise Unknown("`continue` in the loop: the order of its statements is not established")
+            head, tail = self.it[:pos], self.it[pos + 1:]
+        paths = [[(ev, False) for ev in self.pre] + [(ev, True) for ev in head]]
+        if pos != self.ENTRY and pos is not None:
+            if any(ev.kind == "def" and ev.lid == lid for ev in tail + head):
+                paths.append([(ev, True) for ev in tail + head])        # assigned by the previous iteration
+            else:
+                # not assigned in the loop: the value from before the loop, with whole iterations in between
+                paths.append([(ev, False) for ev in self.pre] + [(ev, True) for ev in self.it] + [(ev, True) for ev in head])
+        found = []
+        for P in paths:
+            hit = None
+            for n in range(len(P) - 1, -1, -1):
+                ev, inl = P[n]
+                if ev.kind == "def" and ev.lid == lid:
+                    if not self.always(ev, inl):
+                        raise Unknown("local `%s` is assigned on some paths only" % name)
+                    if ev.init is None:
+                        raise Unknown("local `%s` is not assigned a plain expression" % name)
+                    hit = n
+                    break
+            if hit is None:
+                raise Unknown("local `%s`" % name)
+            init = P[hit][0].init
+            free = _locals_of(init)
+            for ev, _inl in P[hit + 1:]:
+                if ev.kind == "def" and ev.lid in free:
+                    raise Stale("`%s` was read before `%s` was assigned again: it no longer describes the current position"
+                                % (name, _name_of(init, ev.lid)))
+            found.append(init)
+        if any(_nf(x) != _nf(found[0]) for x in found[1:]):
+            raise Unknown("local `%s` holds different expressions on entry and after an iteration" % name)
+        return found[0]
+
+
+def _name_of(e, lid):
+    for y in hir_walk(e):
+        if y.get("k") == "path" and hir_local_id(y) == lid:
+            return y["path"]["res"].get("name", lid)
+    return lid
+
+
+def _exits_with_tests(lp):
+    """exits of the loop (break / return; not those of nested loops' breaks) with the chain of (if node, truth) guarding them"""
     out = []
-    for x in _top_exprs(loop):
-        out += _exits(x)
+
+    def rec(e, conds, inner_loop):
+        if e is None:
+            return
+        k = e.get("k")
+        if k == "ret" or (k == "break" and not inner_loop):
+            out.append((e, list(conds)))
+            return
+        if k == "if":
+            rec(e["cond"], conds, inner_loop)
+            rec(e["then"], conds + [(e, True)], inner_loop)
+            if e.get("else") is not None:
+                rec(e["else"], conds + [(e, False)], inner_loop)
+            return
+        if k == "closure":
+            return
+        if k == "loop":
+            for c in hir_children(e):
+                rec(c, conds, True)
+            return
+        for c in hir_children(e):
+            rec(c, conds, inner_loop)
+
+    for x in block_exprs(lp["body"]):
+        rec(x, [], False)
     return out
 
 
-def analyse(f, power_of_two):
-    """-> dict(status=..., ...) list of findings: (key suffix, 'ok'|'bad'|'undecided', message, ln)"""
-    out = []
+def _pick_loop(f):
+    """the back-shift loop: contains `hole = cursor` (both plain locals) under an `if`; the innermost such `if` decides the move"""
     loops = [x for x in hir_walk(f.hir["body"]) if x.get("k") == "loop" and "ForLoop" not in str(x.get("source"))]
-    # the back-shift loop: contains `hole = cursor` (both plain locals) under an `if`
-    pick = None
     for lp in loops:
+        best = None
         for x in hir_walk(lp):
-            if x.get("k") == "if":
-                for y in hir_walk(x["then"]):
-                    if y.get("k") == "assign" and hir_local_id(y["l"]) is not None and hir_local_id(hu.strip_casts(y["r"])) is not None:
-                        pick = (lp, x, hir_local_id(y["l"]), hir_local_id(hu.strip_casts(y["r"])))
-        if pick:
-            break
+            if x.get("k") != "if":
+                continue
+            for y in hir_walk(x["then"]):
+                if y.get("k") == "assign" and hir_local_id(y["l"]) is not None and hir_local_id(hu.strip_casts(y["r"])) is not None:
+                    size = sum(1 for _ in hir_walk(x))
+                    if best is None or size <= best[0]:
+                        best = (size, x, hir_local_id(y["l"]), hir_local_id(hu.strip_casts(y["r"])))
+        if best:
+            return lp, best[1], best[2], best[3]
+    return None
+
+
+def pick_loop(f):
+    """(loop, move `if`, hole local, cursor local) of the back-shift loop of f, or None"""
+    return _pick_loop(f)
+
+
+def returns_local(g, lid):
+    """does every value g returns (return statements, `break <value>` of a loop in tail position, the tail expression) read
+    the local `lid`, directly or through casts?  True / False; None when g has no value return at all"""
+    vals = []
+
+    def tail(e):
+        e = hir_strip(e)
+        if e is None:
+            return
+        k = e.get("k")
+        if k == "block":
+            if e["block"].get("expr") is not None:
+                tail(e["block"]["expr"])
+            return
+        if k == "loop":
+            for y in hir_walk(e):
+                if y.get("k") == "break" and y.get("e") is not None:
+                    vals.append(y["e"])
+            return
+        if k == "if" and e.get("else") is not None:
+            tail(e["then"])
+            tail(e["else"])
+            return
+        if k == "match":
+            for a in e["arms"]:
+                tail(a["body"])
+            return
+        if k in ("ret", "break", "continue"):
+            return
+        vals.append(e)
+
+    tail(g.hir["body"])
+    stack = [g.hir["body"]]
+    while stack:
+        y = stack.pop()
+        if y is None or y.get("k") == "closure":
+            continue
+        if y.get("k") == "ret" and y.get("e") is not None:
+            vals.append(y["e"])
+        stack.extend(hir_children(y))
+    if not vals:
+        return None
+    return all(hir_local_id(hu.strip_casts(v)) == lid for v in vals)
+
+
+def analyse(f, power_of_two, F=None, slot_tys=()):
+    """-> list of findings: (key suffix, 'ok'|'bad'|'undecided', message, ln); None when the function has no back-shift loop.
+    F (the crate's facts) lets the evaluator follow calls of helper functions; slot_tys are the type strings of the marker
+    array (u64 hashes / Handle), by which reads of `slot[cursor]` are recognised."""
+    out = []
+    pick = _pick_loop(f)
     if pick is None:
         return None
     lp, move_if, hole, cursor = pick
-    # (a) cursor advance
-    adv = None
-    for x in _top_exprs(lp):
-        if x.get("k") == "assign" and hir_local_id(x["l"]) == cursor:
-            adv = x
-            break
-    # (b) exits
-    exits = _loop_exits(lp)
+    try:
+        scope = LoopScope(f, lp)
+    except Unknown as u:
+        return [(sfx, "undecided", "back-shift loop not understood: %s" % u, lp.get("ln"))
+                for sfx in ("loop-exits-only-at-empty-slot", "cursor-advance", "move-decision")]
+
+    def evaluator(env, c, h, pos, slots=None):
+        ev = Ev(f, env, c, h)
+        ev.crate, ev.slot_tys, ev.slots, ev.scope, ev.pos = F, tuple(slot_tys), slots, scope, pos
+        return ev
+
+    caps = [1, 2, 4, 8, 16] if power_of_two else list(range(1, 14))
+    small = [c for c in caps if c <= 8]
+
+    # (b) exits: the path condition of every exit, evaluated for an EMPTY and for occupied slots under the cursor, is
+    # `slot[cursor] == EMPTY` - whatever the other inputs are
+    exits = _exits_with_tests(lp)
     if not exits:
         out.append(("loop-exits-only-at-empty-slot", "undecided", "no exit found in the back-shift loop", lp.get("ln")))
-    inits = hu.let_inits(f)
-    for ex, conds in exits:
-        good = False
-        why = "exit not guarded by a single `slot == EMPTY` test"
-        if len(conds) == 1 and not isinstance(conds[0], tuple):
-            c = hu.strip_casts(conds[0])
-            if c.get("k") == "bin" and c["op"] == "Eq":
-                sides = [hu.strip_casts(c["l"]), hu.strip_casts(c["r"])]
-                lit = [s for s in sides if s.get("k") == "lit" and s["lit"].get("v") == 0]
-                other = [s for s in sides if not (s.get("k") == "lit")]
-                if lit and other:
-                    # the other side must be read at the cursor
-                    seen = set()
-                    work = [other[0]]
-                    reads_cursor = False
-                    while work:
-                        z = work.pop()
-                        for y in hir_walk(z):
-                            lid = hir_local_id(y) if y.get("k") == "path" else None
-                            if lid == cursor:
-                                reads_cursor = True
-                            elif lid is not None and lid not in seen:
-                                seen.add(lid)
-                                work.extend(inits.get(lid, []))
-                    if reads_cursor:
-                        good = True
-                    else:
-                        why = "the tested slot is not the one under the cursor"
-            elif c.get("k") == "bin":
-                why = "exit condition is `%s`, not an EMPTY test" % c["op"]
-        if good:
-            out.append(("loop-exits-only-at-empty-slot", "ok", "the loop is left when the slot under the cursor is EMPTY", ex.get("ln")))
-        else:
+    exit_pos = []
+    for ex, tests in exits:
+        ln = ex.get("ln")
+        p_ex = scope.position("exit", ex)
+        if p_ex is not None:
+            exit_pos.append(p_ex)
+        if not tests:
             out.append(("loop-exits-only-at-empty-slot", "bad",
-                        "the back-shift loop can stop before the end of the cluster (%s): displaced entries behind the stop are cut off by "
-                        "the emptied slot and are no longer found" % why, ex.get("ln")))
-    caps = [1, 2, 4, 8, 16] if power_of_two else list(range(1, 14))
-    # (a)
+                        "the back-shift loop can stop before the end of the cluster (unconditional exit): displaced entries behind the "
+                        "stop are cut off by the emptied slot and are no longer found", ln))
+            continue
+        verdict = None      # None = equivalent to the EMPTY test
+        try:
+            for c in small:
+                for i in range(c):
+                    for j in range(c):
+                        if i == j:
+                            continue
+                        for h in range(c):
+                            for sv in (0, 1, 2, 5, 1 << 31):
+                                taken = True
+                                for node, truth in tests:
+                                    pos = scope.position("if", node)
+                                    if pos is None:
+                                        raise Unknown("a test guarding the exit is not part of the loop body proper")
+                                    try:
+                                        v = bool(evaluator({cursor: j, hole: i}, c, h, pos, {j: sv}).ev(node["cond"]))
+                                    except Overflow:
+                                        v = None
+                                    if v is None:
+                                        taken = None
+                                        break
+                                    if v != truth:
+                                        taken = False
+                                        break
+                                if taken is None:
+                                    continue
+                                if taken != (sv == 0):
+                                    verdict = (c, i, j, h, sv, taken)
+                                    break
+                            if verdict:
+                                break
+                        if verdict:
+                            break
+                    if verdict:
+                        break
+                if verdict:
+                    break
+        except NotCursor as u:
+            out.append(("loop-exits-only-at-empty-slot", "bad",
+                        "the back-shift loop can stop before the end of the cluster (the tested slot is not the one under the cursor: %s): "
+                        "displaced entries behind the stop are cut off by the emptied slot and are no longer found" % u, ln))
+            continue
+        except Unknown as u:
+            out.append(("loop-exits-only-at-empty-slot", "undecided", "exit condition not understood: %s" % u, ln))
+            continue
+        if verdict is None:
+            out.append(("loop-exits-only-at-empty-slot", "ok", "the loop is left exactly when the slot under the cursor is EMPTY "
+                        "(path condition evaluated for empty and occupied slots, capacities %s)" % small, ln))
+        else:
+            c, i, j, h, sv, taken = verdict
+            if taken:
+                why = "with capacity %d, hole %d, cursor %d and an OCCUPIED slot under the cursor (marker %d, home slot %d) the loop is left" % (c, i, j, sv, h)
+                out.append(("loop-exits-only-at-empty-slot", "bad",
+                            "the back-shift loop can stop before the end of the cluster (exit not guarded by a single `slot == EMPTY` test: %s): "
+                            "displaced entries behind the stop are cut off by the emptied slot and are no longer found" % why, ln))
+            else:
+                why = "with capacity %d, hole %d, cursor %d the exit is not taken although the slot under the cursor is EMPTY" % (c, i, j)
+                out.append(("loop-exits-only-at-empty-slot", "bad",
+                            "the back-shift loop does not stop at the end of the cluster (exit not guarded by a single `slot == EMPTY` test: %s): "
+                            "it walks on into the next cluster and moves entries across an empty slot, where lookups never find them" % why, ln))
+
+    # (a) the cursor: assigned once per iteration, to its cyclic successor; either before the EMPTY test (then it starts at
+    # the hole) or after the move decision (then it starts at the successor of the hole)
+    p_move = scope.position("if", move_if)
+    cdefs = scope.defs(cursor)
+    adv = None
+    if len(cdefs) == 1 and scope.always(cdefs[0][1], True) and cdefs[0][1].init is not None:
+        p_adv, adv_ev = cdefs[0]
+        adv = adv_ev.node
     if adv is None:
-        out.append(("cursor-advance", "undecided", "no `cursor = ..` statement at the top of the loop", lp.get("ln")))
+        why = "no `cursor = ..` statement that every iteration executes" if not [d for d in cdefs if scope.always(d[1], True)] else \
+            "the cursor is assigned %d times in the loop, not once per iteration" % len(cdefs)
+        out.append(("cursor-advance", "undecided", why, (cdefs[0][1].node.get("ln") if cdefs else lp.get("ln"))))
     else:
         bad_at = None
+        adv_rhs = adv_ev.init
         try:
             for c in caps:
                 for j in range(c):
-                    v = Ev(f, {cursor: j, hole: 0}, c, 0).ev(adv["r"])
+                    v = evaluator({cursor: j, hole: 0}, c, 0, p_adv).ev(adv_rhs)
                     if v != (j + 1) % c:
                         bad_at = (c, j, v)
                         break
@@ -236,14 +763,45 @@ def analyse(f, power_of_two):
             bad_at = "skip"
         except Overflow as u:
             bad_at = (c, j, "overflow: %s" % u)
-        if bad_at is None:
-            out.append(("cursor-advance", "ok", "cursor = (cursor + 1) mod capacity for all capacities in %s" % caps, adv.get("ln")))
+        first_exit = min(exit_pos) if exit_pos else None
+        order_ok = first_exit is not None and p_move is not None and \
+            (p_adv < first_exit < p_move or first_exit < p_move < p_adv)
+        if bad_at is None and not order_ok:
+            out.append(("cursor-advance", "undecided", "the cursor is not advanced before the EMPTY test or after the move decision: the "
+                        "slot that is tested and the slot that is moved are not established to be the same", adv.get("ln")))
+        elif bad_at is None:
+            # the first slot looked at is the successor of the hole
+            first = ""
+            wrong = None
+            try:
+                e0 = scope.resolve(cursor, LoopScope.ENTRY, "cursor")
+                for c in caps:
+                    for i in range(c):
+                        v = evaluator({hole: i}, c, 0, LoopScope.ENTRY).ev(e0)
+                        if p_adv < first_exit:
+                            v = evaluator({cursor: v, hole: i}, c, 0, p_adv).ev(adv_rhs)
+                        if v != (i + 1) % c:
+                            wrong = (c, i, v)
+                            break
+                    if wrong:
+                        break
+                first = "; the first slot examined is the successor of the hole"
+            except (Unknown, Overflow):
+                first = ""
+            if wrong:
+                out.append(("cursor-advance", "bad", "at capacity %s with the hole in slot %s the first slot the loop examines is %s, not the "
+                            "successor of the hole: the entry directly behind the removed one is skipped (or the cluster is left early)" % wrong,
+                            adv.get("ln")))
+            else:
+                out.append(("cursor-advance", "ok", "cursor = (cursor + 1) mod capacity for all capacities in %s%s" % (caps, first), adv.get("ln")))
         elif bad_at != "skip":
             out.append(("cursor-advance", "bad", "at capacity %s the cursor goes from %s to %s, not to the next slot" % bad_at, adv.get("ln")))
-    # (c)
+    # (c) the move predicate - evaluated as written, helper functions included - against the cyclic-interval specification
     bad_at = None
     n = 0
     try:
+        if p_move is None:
+            raise Unknown("the move decision is not part of the loop body proper")
         for c in caps:
             for i in range(c):
                 for j in range(c):
@@ -253,7 +811,7 @@ def analyse(f, power_of_two):
                         in_range = (i < h <= j) if i <= j else (h > i or h <= j)
                         want_move = not in_range
                         try:
-                            got = bool(Ev(f, {cursor: j, hole: i}, c, h).ev(move_if["cond"]))
+                            got = bool(evaluator({cursor: j, hole: i}, c, h, p_move, {j: SLOT_MARK}).ev(move_if["cond"]))
                         except Overflow as u:
                             got = "arithmetic overflow (%s)" % u
                         n += 1
